@@ -86,8 +86,22 @@ fn v3(k: usize) -> C3Vector {
 fn v2(k: usize) -> C2Vector {
     C2Vector { x: f(k), y: f(k + 4) }
 }
+thread_local! {
+    static MANY: std::cell::Cell<usize> = const { std::cell::Cell::new(17) };
+}
+/// element count of the population level "many" (level 3; only the thorough space m2many uses it)
+pub fn set_many(n: usize) {
+    MANY.with(|c| c.set(n));
+}
+pub const LEVEL_MANY: u8 = 3;
 fn n_of(level: u8) -> usize {
+    if level == LEVEL_MANY {
+        return MANY.with(|c| c.get());
+    }
     [0usize, 1, 3][level as usize]
+}
+fn cycle<T: Copy>(pool: &[T], n: usize) -> Vec<T> {
+    (0..n).map(|i| pool[i % pool.len()]).collect()
 }
 const U16S: [u16; 3] = [0, 0xFFFF, 2];
 const U32S: [u32; 3] = [0, 0xFFFF_FFFF, 1000];
@@ -238,23 +252,24 @@ pub fn build_numbered(version: M2Version, vnum: u32, lv: &[u8]) -> M2Model {
         0 => None,
         1 => Some("World\\Model_01.m2".to_string()),
         2 => Some(long_name("N")),
+        4 => Some(long_name("N").repeat(17)),
         _ => Some(String::new()),
     };
-    m.global_sequences = U32S[..n_of(l("global_sequences"))].to_vec();
+    m.global_sequences = cycle(&U32S, n_of(l("global_sequences")));
     let na = n_of(l("animations"));
     m.animations = (0..na).map(|i| animation(vnum, i, i == 2)).collect();
-    m.animation_lookup = U16S[..n_of(l("animation_lookup"))].to_vec();
+    m.animation_lookup = cycle(&U16S, n_of(l("animation_lookup")));
 
     let nb = n_of(l("bones"));
     for i in 0..nb {
-        let mut b = M2Bone::new([-1i32, 0, 26][i], [-1i16, 0, 1][i]);
-        b.flags = M2BoneFlags::from_bits_retain([0u32, 0x200, 0x8 | 0x400][i]);
-        b.submesh_id = [0u16, 1, 0xFFFF][i];
-        b.bone_name_crc = if vnum >= 260 { [Some(0xDEAD_BEEFu32), Some(0), None][i] } else { None };
+        let mut b = M2Bone::new([-1i32, 0, 26][i % 3], [-1i16, 0, 1][i % 3]);
+        b.flags = M2BoneFlags::from_bits_retain([0u32, 0x200, 0x8 | 0x400][i % 3]);
+        b.submesh_id = [0u16, 1, 0xFFFF][i % 3];
+        b.bone_name_crc = if vnum >= 260 { [Some(0xDEAD_BEEFu32), Some(0), None][i % 3] } else { None };
         b.pivot = v3(i + 3);
         m.bones.push(b);
     }
-    m.key_bone_lookup = [0xFFFFu16, 0, 2][..n_of(l("key_bone_lookup"))].to_vec();
+    m.key_bone_lookup = cycle(&[0xFFFFu16, 0, 2], n_of(l("key_bone_lookup")));
 
     let nv = n_of(l("vertices"));
     for i in 0..nv {
@@ -262,7 +277,7 @@ pub fn build_numbered(version: M2Version, vnum: u32, lv: &[u8]) -> M2Model {
         let bi = if nb == 0 { 0 } else { i.min(nb - 1) as u8 };
         m.vertices.push(M2Vertex {
             position: v3(i * 2),
-            bone_weights: [[255u8, 0, 0, 0], [128, 127, 0, 0], [1, 1, 1, 252]][i],
+            bone_weights: [[255u8, 0, 0, 0], [128, 127, 0, 0], [1, 1, 1, 252]][i % 3],
             bone_indices: [bi, 0, 0, 0],
             normal: v3(i + 5),
             tex_coords: v2(i + 1),
@@ -283,6 +298,13 @@ pub fn build_numbered(version: M2Version, vnum: u32, lv: &[u8]) -> M2Model {
         1 => vec![tx(M2TextureType::Body, 0, None)],
         2 => vec![tx(M2TextureType::Body, 2, None), tx(M2TextureType::Hair, 0, None), tx(M2TextureType::Monster3, 7, None)],
         3 => vec![tx(M2TextureType::Hardcoded, 3, Some("a.blp"))],
+        5 => (0..MANY.with(|c| c.get()))
+            .map(|i| match i % 3 {
+                0 => tx(M2TextureType::Hardcoded, 1, Some(&format!("Textures\\Many{i}.blp"))),
+                1 => tx(M2TextureType::Hair, 4, None),
+                _ => tx(M2TextureType::Hardcoded, 7, Some(&long_name("T"))),
+            })
+            .collect(),
         _ => vec![
             tx(M2TextureType::Hardcoded, 1, Some("Textures\\X.blp")),
             tx(M2TextureType::Hair, 4, None),
@@ -291,27 +313,27 @@ pub fn build_numbered(version: M2Version, vnum: u32, lv: &[u8]) -> M2Model {
     };
     for i in 0..n_of(l("materials")) {
         m.materials.push(M2Material {
-            flags: M2RenderFlags::from_bits_retain([0u16, 0x15, 0xFFFF][i]),
-            blend_mode: M2BlendMode::from_bits_retain([0u16, 7, 2][i]),
+            flags: M2RenderFlags::from_bits_retain([0u16, 0x15, 0xFFFF][i % 3]),
+            blend_mode: M2BlendMode::from_bits_retain([0u16, 7, 2][i % 3]),
         });
     }
-    m.raw_data.bone_lookup_table = [0u16, 1, 0xFFFF][..n_of(l("bone_lookup_table"))].to_vec();
-    m.raw_data.texture_lookup_table = [0xFFFFu16, 0, 1][..n_of(l("texture_lookup_table"))].to_vec();
-    m.raw_data.texture_units = [1u16, 0, 0xFFFE][..n_of(l("texture_units"))].to_vec();
-    m.raw_data.transparency_lookup_table = [2u16, 0xFFFF, 0][..n_of(l("transparency_lookup_table"))].to_vec();
-    m.raw_data.texture_animation_lookup = [0xFFFFu16, 0xFFFF, 3][..n_of(l("texture_animation_lookup"))].to_vec();
+    m.raw_data.bone_lookup_table = cycle(&[0u16, 1, 0xFFFF], n_of(l("bone_lookup_table")));
+    m.raw_data.texture_lookup_table = cycle(&[0xFFFFu16, 0, 1], n_of(l("texture_lookup_table")));
+    m.raw_data.texture_units = cycle(&[1u16, 0, 0xFFFE], n_of(l("texture_units")));
+    m.raw_data.transparency_lookup_table = cycle(&[2u16, 0xFFFF, 0], n_of(l("transparency_lookup_table")));
+    m.raw_data.texture_animation_lookup = cycle(&[0xFFFFu16, 0xFFFF, 3], n_of(l("texture_animation_lookup")));
     m.raw_data.bounding_triangles = (0..n_of(l("bounding_triangles")) * 6).map(|k| (k * 37 + 1) as u8).collect();
     m.raw_data.bounding_vertices = (0..n_of(l("bounding_vertices")) * 12).map(|k| (k * 11 + 2) as u8).collect();
     m.raw_data.bounding_normals = (0..n_of(l("bounding_normals")) * 12).map(|k| (k * 13 + 3) as u8).collect();
-    m.raw_data.attachment_lookup_table = [0u16, 0xFFFF, 5][..n_of(l("attachment_lookup_table"))].to_vec();
-    m.raw_data.camera_lookup_table = [0xFFFFu16, 0, 1][..n_of(l("camera_lookup_table"))].to_vec();
+    m.raw_data.attachment_lookup_table = cycle(&[0u16, 0xFFFF, 5], n_of(l("attachment_lookup_table")));
+    m.raw_data.camera_lookup_table = cycle(&[0xFFFFu16, 0, 1], n_of(l("camera_lookup_table")));
 
     for i in 0..n_of(l("particle_emitters")) {
         m.particle_emitters.push(particle(i));
     }
     for i in 0..n_of(l("ribbon_emitters")) {
         m.ribbon_emitters.push(M2RibbonEmitter {
-            bone_index: U32S[i],
+            bone_index: U32S[i % 3],
             position: v3(i + 1),
             texture_indices: M2Array::new(0, 0),
             material_indices: M2Array::new(0, 0),
@@ -322,7 +344,7 @@ pub fn build_numbered(version: M2Version, vnum: u32, lv: &[u8]) -> M2Model {
             edges_per_second: f(i + 2),
             edge_lifetime: f(i + 3),
             gravity: f(i + 4),
-            texture_rows: U16S[i],
+            texture_rows: U16S[i % 3],
             texture_cols: U16S[(i + 1) % 3],
             texture_slice: if vnum >= 272 && i != 2 { Some(U16S[(i + 2) % 3]) } else { None },
             variation: if vnum >= 272 && i != 2 { Some(i as u16 + 9) } else { None },
@@ -332,7 +354,7 @@ pub fn build_numbered(version: M2Version, vnum: u32, lv: &[u8]) -> M2Model {
     }
     for i in 0..n_of(l("texture_animations")) {
         m.texture_animations.push(M2TextureAnimation::new(
-            [M2TextureAnimationType::None, M2TextureAnimationType::Scroll, M2TextureAnimationType::KeyFrame][i],
+            [M2TextureAnimationType::None, M2TextureAnimationType::Scroll, M2TextureAnimationType::KeyFrame][i % 3],
         ));
     }
     for _ in 0..n_of(l("color_animations")) {
@@ -342,34 +364,34 @@ pub fn build_numbered(version: M2Version, vnum: u32, lv: &[u8]) -> M2Model {
         m.transparency_animations.push(M2TransparencyAnimation::new());
     }
     for i in 0..n_of(l("events")) {
-        let mut e = M2Event::new([*b"$CST", *b"$DTH", [0xFF, 0, b'a', 0x7F]][i], [25i16, -1, 0][i]);
-        e.data = U32S[i];
-        e.unknown = U16S[i];
+        let mut e = M2Event::new([*b"$CST", *b"$DTH", [0xFF, 0, b'a', 0x7F]][i % 3], [25i16, -1, 0][i % 3]);
+        e.data = U32S[i % 3];
+        e.unknown = U16S[i % 3];
         e.position = [f(i), f(i + 1), f(i + 2)];
         m.events.push(e);
     }
     for i in 0..n_of(l("attachments")) {
-        let mut a = M2Attachment::new(U32S[(i + 2) % 3], [2i32, -1, i32::MAX][i]);
+        let mut a = M2Attachment::new(U32S[(i + 2) % 3], [2i32, -1, i32::MAX][i % 3]);
         a.position = v3(i + 4);
         m.attachments.push(a);
     }
     for i in 0..n_of(l("cameras")) {
         let mut c = M2Camera::new(if vnum >= 264 { U32S[(i + 1) % 3] } else { 0 });
-        c.camera_type = [0u32, 1, 0xFFFF_FFFF][i];
+        c.camera_type = [0u32, 1, 0xFFFF_FFFF][i % 3];
         c.fov = f(i + 2);
         c.far_clip = f(i + 4);
         c.near_clip = f(i + 5);
         c.position_base = v3(i);
         c.target_position_base = v3(i + 6);
         if vnum >= 264 {
-            c.flags = M2CameraFlags::from_bits_retain([0u16, 3, 0xFFFF][i]);
+            c.flags = M2CameraFlags::from_bits_retain([0u16, 3, 0xFFFF][i % 3]);
         }
         m.cameras.push(c);
     }
     for i in 0..n_of(l("lights")) {
-        let mut x = M2Light::new([M2LightType::Directional, M2LightType::Point, M2LightType::Ambient][i], U16S[i], U32S[i]);
+        let mut x = M2Light::new([M2LightType::Directional, M2LightType::Point, M2LightType::Ambient][i % 3], U16S[i % 3], U32S[i % 3]);
         x.position = v3(i + 2);
-        x.flags = M2LightFlags::from_bits_retain([1u16, 0, 0xFFFF][i]);
+        x.flags = M2LightFlags::from_bits_retain([1u16, 0, 0xFFFF][i % 3]);
         m.lights.push(x);
     }
     match l("header_scalars") {
